@@ -37,7 +37,7 @@ def main():
     # a change seeded for one property may surface through the check of a related one
     RELATED = {"C02": ["C02", "C11", "C13"], "C04": ["C04", "C11"], "C16": ["C16", "C10", "C04"],
                "C07": ["C07", "C03", "C02"], "C05": ["C05", "C03"], "C06": ["C06", "C09"], "C08": ["C08", "C15"], "C09": ["C09", "C06"], "C12": ["C12", "C09"],
-               "C19": ["C19", "C02", "C03"], "C13": ["C13", "C02"], "C18": ["C18", "C09"], "C14": ["C14"], "C15": ["C15"], "C16": ["C16"], "C20": ["C20"]}
+               "C19": ["C19", "C02", "C03"], "C13": ["C13", "C02"], "C18": ["C18", "C09"], "C14": ["C14"], "C15": ["C15"], "C20": ["C20"]}
     for d in want:
         prop0 = d.split("-")[0]
         for prop in RELATED.get(prop0, [prop0]):
